@@ -11,41 +11,50 @@ IMPORTS = ('phylib.stats.ccg',)
 ACTIONS = ('Shift', 'Stop', 'Symmetrize')
 
 
-def run_code(t, c, ids, bin_, half, rate, variant=0, count_shifts=False):
-    """The real correlograms() on times t/rate seconds. Returns (one-sided, symmetrised, shifts)."""
+def run_code(t, c, ids, bin_, half, rate, variant=0, count_shifts=False, mode='plain'):
+    """The real correlograms() on times t/rate seconds. Returns (one-sided, symmetrised, shifts).
+    mode 'fracwin': the window is NOT a whole number of bins (2*half + 1.75 bins: still `half` bins on each side);
+    mode 'f32': single-precision spike times 20000 s + t/8 s at 1000 Hz with bins of bin_/8 s - every time and
+    every time * rate is exact, but only if the times are widened before they are multiplied by the rate."""
     from phylib.stats import ccg
-    times = np.asarray(t, dtype=np.float64) / rate
     clu = np.asarray(c, dtype=[np.int64, np.int32, np.uint32, np.int64][variant % 4])
-    bin_size = bin_ / float(rate)
+    if mode == 'f32':
+        rate = 1000
+        times = (20000 + np.asarray(t, dtype=np.float64) / 8).astype(np.float32)
+        if not np.array_equal(times.astype(np.float64), 20000 + np.asarray(t, dtype=np.float64) / 8):
+            raise MachineryError('times not representable in single precision')
+        bin_size = bin_ * 0.125
+    else:
+        times = np.asarray(t, dtype=np.float64) / rate
+        bin_size = bin_ / float(rate)
     # window: 2*half bins and 2*half+1 bins both mean `half` bins on each side
-    window = (2 * half + (variant % 2)) * bin_size
+    window = (2 * half + (1.75 if mode == 'fracwin' else (variant % 2))) * bin_size
     if window == 0:
         window = bin_size
     cl = list(ids) if variant % 3 else np.asarray(ids)
+
+    def call(symmetrize):
+        return ccg.correlograms(times, clu, cluster_ids=cl, sample_rate=float(rate),
+                                bin_size=bin_size, window_size=window, symmetrize=symmetrize)
     shifts = -1
-    if count_shifts:
+    orig = getattr(ccg, '_diff_shifted', None)
+    if count_shifts and orig is not None:
         calls = []
-        orig = getattr(ccg, '_diff_shifted', None)
-        if orig is None:
-            return run_code(t, c, ids, bin_, half, rate, variant, count_shifts=False)
 
         def wrapped(arr, steps=1):
             calls.append(steps)
             return orig(arr, steps)
         ccg._diff_shifted = wrapped
         try:
-            one = ccg.correlograms(times, clu, cluster_ids=cl, sample_rate=float(rate),
-                                   bin_size=bin_size, window_size=window, symmetrize=False)
+            one = call(False)
         finally:
             ccg._diff_shifted = orig
         shifts = len(calls)
         if calls != list(range(1, len(calls) + 1)):
             shifts = -2
     else:
-        one = ccg.correlograms(times, clu, cluster_ids=cl, sample_rate=float(rate),
-                               bin_size=bin_size, window_size=window, symmetrize=False)
-    sym = ccg.correlograms(times, clu, cluster_ids=cl, sample_rate=float(rate),
-                           bin_size=bin_size, window_size=window, symmetrize=True)
+        one = call(False)
+    sym = call(True)
     return as_list(one), as_list(sym), shifts
 
 
@@ -96,10 +105,17 @@ def _random_records(ctx, count, nmax):
         bin_ = int(rng.randint(1, 6))
         half = int(rng.randint(0, 5))
         rate = int(2 ** rng.randint(0, 15))
-        inp = dict(t=t, c=c, ids=ids, bin=bin_, half=half)
+        mode = ['plain', 'plain', 'fracwin', 'f32', 'plain', 'bigbin'][rid % 6]
+        if mode == 'bigbin':
+            # bins of many samples (49, 98, 103, ...: 1/bin is not exact) and lags that are exact multiples of the bin
+            bin_ = int(rng.choice([49, 98, 103, 107, 161, 187, 196, 197]))
+            t = sorted(int(bin_ * x + rng.choice([0, 0, 0, 1])) for x in rng.randint(0, 9, size=n))
+            rate = int(2 ** rng.randint(8, 15))
+            mode = 'plain'
+        inp = dict(t=t, c=c, ids=ids, bin=bin_, half=half, mode=mode)
         one = None
         with ctx.guard('trace', inp):
-            one, sym, shifts = run_code(t, c, ids, bin_, half, rate, variant=rid, count_shifts=True)
+            one, sym, shifts = run_code(t, c, ids, bin_, half, rate, variant=rid, count_shifts=True, mode=mode)
             r = run_rate(c, ids, 1, 1)
         if one is None:
             break
